@@ -120,6 +120,20 @@ def generate(rng: Prng, tier: str) -> dict:
         p["r0"] = r0
         p["arm_a"] = gen_arm(w, r0, n_a)
         p["arm_b"] = gen_arm(w, r0, w.choice([1, 1, 2, 3, 5])) if kind == "two_arm" else []
+        nr = rng.stream("near_radii")
+        for arm in (p["arm_a"], p["arm_b"]):
+            prev, zero_run = r0, False
+            for e in arm:
+                u = nr.random()
+                if zero_run and nr.chance(0.6):
+                    e[1] = 0.0
+                elif u < 0.08:
+                    # neighbouring radii that are nearly, not exactly, equal (a few float32 ulps to a few 1e-5 apart)
+                    e[1] = prev * nr.choice([1 + 1.2e-7, 1 - 1.2e-7, 1 + 2.5e-7, 1 - 6e-7, 1 + 2e-6, 1 - 1e-5, 1 + 3e-5, 1 - 8e-5])
+                elif u < 0.11:
+                    e[1] = 0.0  # a node of zero thickness (a run of them: a compartment that is a bare line)
+                zero_run = e[1] == 0.0
+                prev = e[1] or prev
         p["axis"] = gen_axis(w)
         p["offset"] = w.choice([[0.0, 0.0, 0.0], [8.0, -16.0, 32.0]]) if w.chance(0.5) else \
             [round(w.uniform(-300, 300), 2) for _ in range(3)]
@@ -239,7 +253,7 @@ def layout(program: dict):
             prev = 0
             for factor, rad in arm:
                 rad = rad * sc
-                gap = max(r[prev], rad) * factor * widen
+                gap = (max(r[prev], rad) or 0.75 * sc) * factor * widen  # two zero radii in a row: any positive length
                 s.append(s[prev] + sign * gap)
                 r.append(rad)
                 pid.append(prev)
@@ -451,6 +465,12 @@ def execute(program: dict) -> dict:
     t, pos, axis, overlap, n = prepare(program)
     rounds = [None] + list(program.get("edits") or []) + [{"axis": a} for a in (program.get("followup_axes") or [])]
     with World() as world:
+        if pos is not None:
+            rr_, pp_ = t["r"], t["pid"]
+            if any(rr_[q] != rr_[pp_[q]] and abs(rr_[q] - rr_[pp_[q]]) <= 1e-4 * max(rr_[q], rr_[pp_[q]]) for q in range(1, len(pp_))):
+                world.probe("c14.neighbouring_radii_nearly_equal")
+            if any(rr_[q] == 0.0 and rr_[pp_[q]] == 0.0 for q in range(1, len(pp_))):
+                world.probe("c14.compartment_of_zero_thickness")
         try:
             tree = common.build_tree(t, source="gen", comments=program.get("comments"), custom_names=bool(program.get("custom_names")))
             shared: dict = {"level_type": program.get("level_type", "int"), "fp_errors": program.get("fp_errors"), "warnings": program.get("warnings")}
